@@ -135,6 +135,51 @@ theorem ka_min_gap (H tR tS : Nat) (hH : 3 ≤ H) (ps : List Poll) :
   rw [keepaliveOf_eq]
   exact ka_adj_gt H hH ps _ tR tS (inv_init H tR tS)
 
+/-- **Outbound traffic changes nothing for the timers.** Whatever ExaBGP writes itself between two
+    iterations (UPDATEs of the initial table or of the API, End-of-RIB, ROUTE-REFRESH,
+    OPERATIONAL) — in any number, at any time — the session ends exactly as without it and
+    exactly the same KEEPALIVEs are sent at the same times: an UPDATE sent never replaces a
+    KEEPALIVE.  (In the model this is by definition of `Sess.step`; that the real
+    `Protocol.send` / `new_update_generator` / `new_eor` / `new_refresh` paths leave both timers
+    and the decisions of `KA.send_if_needed` untouched is what the correspondence runs check.) -/
+theorem outbound_traffic_is_invisible (H tR tS : Nat) (evs : List Ev) :
+    ((Sess.init H tR tS).runEv evs).1 = ((Sess.init H tR tS).run (pollsOf evs)).1 ∧
+    kaTimes ((Sess.init H tR tS).runEv evs).2 = kaTimes ((Sess.init H tR tS).run (pollsOf evs)).2 :=
+  runEv_eq_run _ evs
+
+/-- **KEEPALIVE gap with outbound traffic in the schedule**: `ka_gap` for schedules in which
+    outbound writes are interleaved with the iterations (long outbound batches only enter
+    through `δ`, the distance between iterations). -/
+theorem ka_gap_with_outbound (H tR tS δ : Nat) (hH : 3 ≤ H) (evs : List Ev)
+    (hg : Gaps δ tS (pollsOf evs)) :
+    AdjLt (keepaliveOf H * 1000 + δ) (tS :: kaTimes ((Sess.init H tR tS).runEv evs).2) := by
+  rw [(runEv_eq_run _ evs).2]
+  exact ka_gap H tR tS δ hH (pollsOf evs) hg
+
+/-- **The timers run on the negotiated hold time, the minimum of the two OPENs** (RFC 4271 4.2):
+    both the `ReceiveTimer` of `_establish` and the `SendTimer` of `_main` are created from
+    `min localHold peerHold`; zero on either side gives zero. -/
+theorem negotiated_hold_is_min (l p tR tS : Nat) :
+    (Sess.establish l p tR tS).recv.hold = min l p ∧
+    (Sess.establish l p tR tS).send.keepalive = min l p / 3 ∧
+    ((l = 0 ∨ p = 0) → (Sess.establish l p tR tS).recv.hold = 0 ∧ (Sess.establish l p tR tS).send.keepalive = 0) ∧
+    Sess.establish l p tR tS = Sess.init (min l p) tR tS := by
+  refine ⟨rfl, ?_, ?_, rfl⟩
+  · simp [Sess.establish, Send.establish, Send.init, negotiatedHold, keepaliveOf_eq]
+  · intro h
+    have h0 : min l p = 0 := by omega
+    simp [Sess.establish, Recv.establish, Send.establish, Recv.init, Send.init, negotiatedHold, keepaliveOf_eq, h0]
+
+/-- **Hold time 0 in either OPEN switches both timers off**: whatever our own configured hold
+    time, the session is never ended with 4/0 and no periodic KEEPALIVE is sent, on any schedule,
+    outbound traffic included. -/
+theorem zero_in_either_open_disables_timers (l p tR tS : Nat) (h : l = 0 ∨ p = 0) (evs : List Ev) :
+    (∀ t c sb, ((Sess.establish l p tR tS).runEv evs).1.closed = some (t, c, sb) → (c, sb) = (2, 6)) ∧
+    kaTimes ((Sess.establish l p tR tS).runEv evs).2 = [] := by
+  have h0 : min l p = 0 := by omega
+  rw [establish_eq, h0, (runEv_eq_run _ evs).1, (runEv_eq_run _ evs).2]
+  exact ⟨(h0_never_fires tR tS (pollsOf evs)).1, h0_no_periodic_ka tR tS (pollsOf evs)⟩
+
 /-- **OPEN wait.** A peer OPEN that is not complete within `openwait` seconds (or never) ends the
     attempt with 5/1; one that is complete earlier does not.  (At exactly `openwait` the two
     callbacks are ready in the same event-loop iteration; asyncio decides.) -/
@@ -191,6 +236,13 @@ example : kaTimes ((Sess.init 3 1000000 1000000).run [upd 1000999, upd 1001999])
 example : ((Sess.init 0 0 0).run [nop 86400000, ka 86400001, upd 86400002]).1.closed = none := by decide
 example : ((Sess.init 0 0 0).run [ka 1000, upd 2000, ka 3000, nop 4000]).1.closed = some (3000, 2, 6) := by decide
 example : kaTimes ((Sess.init 0 0 0).run [nop 1000, nop 100000, ka 200000]).2 = [] := by decide
+
+/-- our hold time 180, the peer's OPEN says 0: 181 s (and a day) of silence do nothing -/
+example : ((Sess.establish 180 0 0 0).runEv
+    [.out 100 .update, .poll (nop 181000), .poll (nop 182000), .poll (nop 86400000)]).1.closed = none := by decide
+/-- H = 9 with an UPDATE written just before every due instant: the KEEPALIVEs still go out -/
+example : kaTimes ((Sess.establish 9 180 0 0).runEv
+    [.out 2900 .update, .poll (nop 3000), .out 5900 .update, .out 5950 .eor, .poll (nop 6000)]).2 = [3000, 6000] := by decide
 
 example : openWait 60 (some 59999) = .opened ∧ openWait 60 (some 60001) = .notify 5 1 := by decide
 
